@@ -265,3 +265,102 @@ def window_scope(ctx, rep, rule):
     for e in an.events('STOREWIN'):
         rep.fail(rule, "%s window stored" % e.where, fn, "`%s`" % src(stmt_of(e.node)),
                  "the window outlives / is shared beyond one activation of the run", trace(e.st))
+
+
+# ============================================================ nested form
+def nested_awaits_run(ctx, rep, rule):
+    """R01.4 / R10.2: the body of a nested scheduler is the awaited inherited run"""
+    r = ctx.roles
+    rep.need(rule, len(r.nestable), 1, "nestable scheduler classes")
+    for cls in r.nestable:
+        f = ctx.prog.supplier(cls, 'co_run')
+        if f is r.RUN:
+            rep.ok(rule, "%s inherits the run unchanged" % cls.name)
+            continue
+        an, ip, out = ctx.explore(f)
+        dels = an.events('DELEGATE')
+        rep.check(bool(dels), rule, "%s delegates to the inherited run" % f.qualname, f.qualname,
+                  "no awaited call of %s in %s" % (r.RUN.qualname, f.qualname),
+                  "the nested scheduler's body is not the scheduler run: its jobs are not orchestrated, or "
+                  "are orchestrated in a detached task that the parent does not wait for")
+        n = 0
+        for st, val, node in out.ret:
+            n += 1
+            rep.check(st.a('delegated', False), rule, "%s return after the run" % ip.where(node), f.qualname,
+                      "`%s` reachable before the inherited run was awaited" % src(node),
+                      "the nested scheduler is reported finished before its own run is over: its successors "
+                      "start too early", trace(st))
+        for st, kind, node in out.exc:
+            n += 1
+            rep.check(st.a('delegated', False), rule, "%s raise after the run" % ip.where(node), f.qualname,
+                      "`%s` reachable before the inherited run was awaited" % src(stmt_of(node)),
+                      "the nested scheduler fails before its own run is over", trace(st))
+        for st in out.nxt:
+            n += 1
+            rep.fail(rule, "%s falls off its end" % f.qualname, f.qualname, "end of function reached",
+                     "the nested scheduler's verdict is lost", trace(st))
+        for e in an.events('SPAWN'):
+            if e.data['tkind'] in ('bare', 'run', 'other'):
+                rep.fail(rule, "%s detached task" % e.where, f.qualname, "`%s`" % src(stmt_of(e.node)),
+                         "the nested run is started in a task of its own instead of being awaited",
+                         trace(e.st))
+        rep.need(rule + ":exits", n, 2, "exits of the nested form")
+
+
+# ======================================================= relation builder
+def relation_builder(ctx, rep, rule):
+    """R12.3 / R17.2: the builder resets succ(j) for every member and adds j to
+    succ(r) for every member j and every r in j.required"""
+    r = ctx.roles
+    f = r.relation_builder
+    an, ip, out = ctx.explore(f)
+    A = r.reverse_attr
+    M = T.mk(('attr', T.SELF, 'jobs'))
+    resets = [e for e in an.events('STORE') if e.data['attr'] == A and e.data['aug'] is None]
+    links = an.events('LINK')
+    rep.need(rule + ":reset", len(resets), 1, "resets of the reverse links")
+    rep.need(rule + ":link", len(links), 1, "link statements")
+    for e in resets:
+        o = e.data['obj']
+        ok = o[0] == 'elem' and o[1] == M and e.data['val'][0] == 'union' and not e.data['val'][1]
+        lp = [c for c in e.loops if c.elem == o]
+        ok = ok and lp and not lp[0].conds
+        rep.check(bool(ok), rule, "%s every member's reverse links are reset" % e.where, f.qualname,
+                  "`%s` (object %s)" % (src(stmt_of(e.node)), T.show(o, 3)),
+                  "stale reverse links survive: jobs that no longer require a job are still started after it",
+                  trace(e.st))
+    for e in links:
+        obj, val = e.data['obj'], e.data['val']
+        ok = False
+        why = "%s.%s.add(%s)" % (T.show(obj, 3), A, T.show(val, 3))
+        if val[0] == 'elem' and val[1] == M and obj[0] == 'elem' and obj[1] == T.mk(('attr', val, 'required')) \
+                and e.data['how'] == 'add':
+            ok = not e.data['conds'] and not any(c.conds for c in e.loops)
+        rep.check(ok, rule, "%s link orientation and totality" % e.where, f.qualname, why,
+                  "the reverse relation is not `r.successors contains j for every member j and every r in "
+                  "j.required`: successors are looked up in the wrong direction or partially", trace(e.st))
+    for lp in {id(c.node): c for e in links + resets for c in e.loops}.values():
+        from ..flow import _may_stop_early
+        if lp.kind == 'for':
+            rep.check(not _may_stop_early(lp.node), rule, "%s:%d builder loop runs to its end"
+                      % (f.module.relpath, lp.node.lineno), f.qualname,
+                      "loop `for %s in %s` can stop early" % (src(lp.node.target), src(lp.node.iter)),
+                      "some reverse links are never built")
+
+
+def slot_adjacency(ctx, rep, rule):
+    """R12.5: in the wrapper nothing suspends while the slot is held, except the body"""
+    r = ctx.roles
+    an, ip, out = ctx.wrap(gen_cancel=True, gen_bodyexc=True)
+    fn = r.WRAP.qualname
+    n = 0
+    for e in an.events('SUSPEND', 'AWAIT_ALL', 'WAIT', 'SHUT'):
+        n += 1
+        held = e.st.a('slot', 'Free') == 'Held'
+        rep.check(not held, rule, "%s suspension outside the slot" % e.where, fn,
+                  "`%s` suspends while the window slot is held" % src(e.node),
+                  "a slot is held idle: an eligible job is kept waiting although fewer than jobs_window "
+                  "bodies are running", trace(e.st))
+    bodies = an.events('BODY')
+    rep.need(rule, len(bodies), 1, "bodies in the wrapper")
+    rep.ok(rule, "%s: %d other suspension points examined" % (fn, n))
